@@ -10,7 +10,15 @@ from pyvc.contracts import T
 from pyvc.spec import BINARY_OPS, UNARY_OPS
 from pyvc.values import ClassRef, FuncRef, PDict
 
-from .specfns import Spec
+from .specfns import Spec as _Spec
+
+
+class Spec(_Spec):
+    """Gradient-family contracts are stated at an arbitrary parameter valuation (C12/P2): the default valuation of every
+    spec function used here is PVX, not the current store."""
+    @property
+    def PV(self):
+        return self.PVX
 
 M = "optyx.core.autodiff"
 SCALAR_LEAVES = ["Constant", "Variable", "Parameter"]
@@ -72,9 +80,9 @@ def install(reg, src):
             c.returns(T.expr())
             c.requires(sp.wf(l), sp.wf(r), name="well-formed operands")
             c.ensures("wf", lambda res: sp.wf(res))
-            dl, dr = sp.den(l), sp.den(r)
+            dl, dr = sp.den(l, sp.E, sp.PVX), sp.den(r, sp.E, sp.PVX)
             guard = domain(sp, l, r, dl, dr) if domain else z3.BoolVal(True)
-            c.ensures("den", lambda res: z3.Implies(guard, sp.den(res) == combine(sp, dl, dr)))
+            c.ensures("den", lambda res: z3.Implies(guard, sp.den(res, sp.E, sp.PVX) == combine(sp, dl, dr)))
             if zero_rule is not None:
                 c.ensures("zero", lambda res: z3.Implies(zero_rule(sp.is_zero(l), sp.is_zero(r)), sp.is_zero(res)))
         return _
@@ -95,7 +103,7 @@ def install(reg, src):
         c.returns(T.expr())
         c.requires(sp.wf(e), name="well-formed operand")
         c.ensures("wf", lambda res: sp.wf(res))
-        c.ensures("den", lambda res: sp.den(res) == -sp.den(e))
+        c.ensures("den", lambda res: sp.den(res, sp.E, sp.PVX) == -sp.den(e, sp.E, sp.PVX))
         c.ensures("zero", lambda res: z3.Implies(sp.is_zero(e), sp.is_zero(res)))
 
     # ------------------------------------------------------------------ gradient family
@@ -105,7 +113,7 @@ def install(reg, src):
         w = sp.name(wrt)
         c.returns(T.expr())
         c.decreases(e)
-        c.ensures("G1", lambda res: z3.Implies(sp.reg(e, w), sp.den(res) == sp.dv(e, w)))
+        c.ensures("G1", lambda res: z3.Implies(sp.reg(e, w, sp.E, sp.PVX), sp.den(res, sp.E, sp.PVX) == sp.dv(e, w, sp.E, sp.PVX)))
         c.ensures("G2", lambda res: z3.Implies(z3.Not(sp.occ(e, w)), sp.is_zero(res)))
         c.ensures("wf", lambda res: sp.wf(res))
         return w
